@@ -399,6 +399,15 @@ def gen_validation(chk):
                     for r3 in refs:
                         k += 1
                         jobs.append({"op": "parse", "s": f"{t} = {r1} {ops[k % 3]} ({r2} {ops[(k // 3) % 3]} {r3})", "tag": "validation"})
+    # three references of few tensors: the order check must look at every reference, the
+    # target check at every name
+    small = ["b()", "b(i)", "b(i,j)", "a(i)", "c(i)"]
+    for t in ["a(i)", "c()"]:
+        for r1 in small:
+            for r2 in small:
+                for r3 in small:
+                    k += 1
+                    jobs.append({"op": "parse", "s": f"{t} = {r1} {ops[k % 3]} {r2} {ops[(k // 3) % 3]} {r3}", "tag": "validation"})
     return jobs
 
 
@@ -626,7 +635,21 @@ def judge_parse(chk, job, res, out):
         return False
     if k == "err":
         if res["cls"].startswith("OTHER"):
+            # forward compatibility with the candidate fixes for K-C12-1/2 (catch -> Failure(exc)):
+            # such a Failure is a typed failure exactly on the inputs of the known families
+            probe = s if s is not None else ""
+            if res["cls"] == "OTHER:ValueError" and max_digit_run(probe) > 4300:
+                chk.count("fixed-form:K-C12-1")
+                return False
+            if res["cls"] == "OTHER:RecursionError" and 14 * nesting(probe) + op_count(probe) >= RECURSION_DEMAND:
+                chk.count("fixed-form:K-C12-2")
+                return False
             out["violations"].append(("the failure is not one of the typed failures", job, res))
+            return False
+        if res["cls"] == "ParseError" and s is not None and s.isascii() and has_overflowing_float(s):
+            # candidate fix for K-C12-3 (reject non-finite literals): binary64 range is outside the
+            # model, either answer is a typed failure; not compared with the model
+            chk.count("overflowing-literal-rejected")
             return False
         return True
     # accepted
